@@ -689,6 +689,33 @@ func ruleSortedVars(r *Run) {
 	if n == 0 {
 		r.undecided("path.variables/additions", token.NoPos, "no append to path.variables found")
 	}
+	// removals keep the order: an element of a live path.variables is overwritten only by the sort itself (Swap) -
+	// a swap-with-last removal leaves the slice unsorted, and which of two matching patterns wins then depends on
+	// the registration / drop history
+	for _, fn := range p.ModuleFuncs() {
+		if fn.Name() == "Swap" && fn.Signature.Recv() != nil {
+			continue
+		}
+		fn := fn
+		site := 0
+		for _, w := range e.OwnWrites(fn) {
+			if w.Target() != "path.variables" || w.Kind != "elem-store" || w.Fresh {
+				continue
+			}
+			site++
+			isSort := func(in ssa.Instruction) bool {
+				for _, w2 := range e.OwnWrites(fn) {
+					if w2.Instr == in && w2.Kind == "sort" && w2.Target() == "path.variables" {
+						return true
+					}
+				}
+				return false
+			}
+			if pth, _ := (pathQuery{fn: fn, start: w.Instr, target: isReturn, barrier: isSort}).find(); pth != nil {
+				r.bad(fmt.Sprintf("%s/order-kept-on-removal#%d", shortFunc(fn), site), w.Instr.Pos(), "an element of path.variables is overwritten in place (swap-with-last removal) and a return is reachable without re-sorting: the slice is no longer sorted, and the pattern that wins for a path matched by two of them depends on the order of earlier registrations and drops")
+			}
+		}
+	}
 	// Less is strict < on name
 	less := p.Method("variables", "Less")
 	if less == nil {
